@@ -92,8 +92,14 @@ def PKey.lt : PKey → PKey → Option Bool
   | .i a, .i b => some (decide (a < b))
   | _, _ => none
 
-/-- stable insertion by key (Python `sorted(newdiffs, key=lambda x: x.key)`); mixed key types
-    raise TypeError -/
+/-- `op != DiffOp.ADDRANGE` (insertions of items, lines or characters are the same op) -/
+def Op.notInsert : Op → Bool
+  | .addrange _ _ => false
+  | .addchars _ _ => false
+  | _ => true
+
+/-- stable insertion by the sort key (Python `sorted(newdiffs, key=lambda x: (x.key, x.op != DiffOp.ADDRANGE))`:
+    by key, an insertion before a patch / removal on the same key); mixed key types raise TypeError -/
 def insertByKey (e : Op) : List Op → Except Err (List Op)
   | [] => .ok [e]
   | x :: rest =>
@@ -102,7 +108,11 @@ def insertByKey (e : Op) : List Op → Except Err (List Op)
           -- `e` precedes the elements already placed (it came earlier): keep it first among equals
           match PKey.lt kx ke with
           | none => .error (.typeErr "'<' not supported between instances of 'str' and 'int'")
-          | some false => .ok (e :: x :: rest)
+          | some false =>
+              if kx == ke && !x.notInsert && e.notInsert then do
+                let r ← insertByKey e rest
+                .ok (x :: r)
+              else .ok (e :: x :: rest)
           | some true => do
               let r ← insertByKey e rest
               .ok (x :: r)
